@@ -127,7 +127,7 @@ def run_case(c, path, F):
     else:
         docov = c["docov"]
     blind = SourceFinder().find_sources_in_image(path, rms=1.0, bkg=0.0, innerclip=5, outerclip=4, docov=docov, cores=1,
-                                                 doislandflux=c["islandflux"], max_summits=c["max_summits"])
+                                                 doislandflux=c["islandflux"], max_summits=c["max_summits"], **skyimg.cube_kw(c.get("rep")))
     if c["mode"] == "blind":
         return blind, docov
     if c["mode"] == "prior-blind":
@@ -137,7 +137,7 @@ def run_case(c, path, F):
     else:
         cat = synth_catalogue(F, c)
     out = SourceFinder().priorized_fit_islands(path, catalogue=cat, rms=1.0, bkg=0.0, stage=c["stage"], doregroup=c["regroup"],
-                                               docov=docov, cores=1)
+                                               docov=docov, cores=1, **skyimg.cube_kw(c.get("rep")))
     return out, docov
 
 
